@@ -307,6 +307,102 @@ impl C07 {
     }
 }
 
+// fmtsweep: "<lo> <hi> <bps|-> <bpc|-> <fat|-> <root_entries|-> <fats|->"
+//   runs the boot-sector hook for EVERY total sector count in lo..=hi and prints one line per maximal run of
+//   consecutive counts whose results agree in everything but the total-sector fields (which must encode the count):
+//     "run <first> <last> ok <fatbits> <hex512 of first>" | "run <first> <last> err <Variant>" | "run <first> <last> panic <hexmsg>"
+//   followed by "end <number of counts evaluated>".
+fn sweep_options(t: &[&str]) -> fatfs::FormatVolumeOptions {
+    let mut o = fatfs::FormatVolumeOptions::new();
+    if let Some(v) = opt::<u16>(t[2]) {
+        o = o.bytes_per_sector(v);
+    }
+    if let Some(v) = opt::<u32>(t[3]) {
+        o = o.bytes_per_cluster(v);
+    }
+    match t[4] {
+        "12" => o = o.fat_type(fatfs::FatType::Fat12),
+        "16" => o = o.fat_type(fatfs::FatType::Fat16),
+        "32" => o = o.fat_type(fatfs::FatType::Fat32),
+        _ => {}
+    }
+    if let Some(v) = opt::<u16>(t[5]) {
+        o = o.max_root_dir_entries(v);
+    }
+    if let Some(v) = opt::<u8>(t[6]) {
+        o = o.fats(v);
+    }
+    o
+}
+
+#[derive(PartialEq, Clone)]
+enum SweepKey {
+    Ok(u32, [u8; 512]), // fat bits, sector with the total-sector fields cleared
+    Err(String),
+    Panic(String),
+}
+
+fn sweep_one(o: &fatfs::FormatVolumeOptions, ts: u32) -> (SweepKey, [u8; 512]) {
+    let r = catch_unwind(AssertUnwindSafe(|| fatfs::verif_hooks::format_boot_sector_bytes(o, ts)));
+    match r {
+        Ok(Ok((b, bits))) => {
+            let mut k = b;
+            let ts16 = u32::from(u16::from_le_bytes([b[19], b[20]]));
+            let ts32 = u32::from_le_bytes([b[32], b[33], b[34], b[35]]);
+            // the declared size must be the requested one, in exactly one of the two fields
+            let declared_ok = (ts16 == ts && ts32 == 0 && ts != 0) || (ts16 == 0 && ts32 == ts);
+            if declared_ok {
+                k[19] = 0;
+                k[20] = 0;
+                k[32] = 0;
+                k[33] = 0;
+                k[34] = 0;
+                k[35] = 0;
+                // which field is used is part of the key
+                k[19] = u8::from(ts16 != 0);
+            }
+            (SweepKey::Ok(bits, k), b)
+        }
+        Ok(Err(fatfs::Error::InvalidInput)) => (SweepKey::Err("InvalidInput".to_string()), [0; 512]),
+        Ok(Err(_)) => (SweepKey::Err("Other".to_string()), [0; 512]),
+        Err(_) => {
+            let msg = crate::PANIC_MSG.with(|m| m.borrow().clone());
+            (SweepKey::Panic(hex(msg.as_bytes())), [0; 512])
+        }
+    }
+}
+
+fn fmtsweep(t: &[&str], out: &mut impl Write) {
+    let lo: u64 = t[0].parse().unwrap();
+    let hi: u64 = t[1].parse().unwrap();
+    let o = sweep_options(t);
+    let mut cur: Option<(SweepKey, [u8; 512], u64)> = None;
+    let mut n: u64 = 0;
+    let emit = |out: &mut dyn Write, k: &SweepKey, first_bytes: &[u8; 512], first: u64, last: u64| match k {
+        SweepKey::Ok(bits, _) => writeln!(out, "run {} {} ok {} {}", first, last, bits, hex(first_bytes)).unwrap(),
+        SweepKey::Err(v) => writeln!(out, "run {} {} err {}", first, last, v).unwrap(),
+        SweepKey::Panic(m) => writeln!(out, "run {} {} panic {}", first, last, m).unwrap(),
+    };
+    let mut ts = lo;
+    while ts <= hi {
+        let (k, b) = sweep_one(&o, ts as u32);
+        n += 1;
+        match &cur {
+            Some((ck, _, _)) if *ck == k => {}
+            Some((ck, cb, first)) => {
+                emit(out, ck, cb, *first, ts - 1);
+                cur = Some((k, b, ts));
+            }
+            None => cur = Some((k, b, ts)),
+        }
+        ts += 1;
+    }
+    if let Some((ck, cb, first)) = &cur {
+        emit(out, ck, cb, *first, hi);
+    }
+    writeln!(out, "end {}", n).unwrap();
+}
+
 pub fn main(args: &[String]) {
     let stdin = std::io::stdin();
     let stdout = std::io::stdout();
@@ -334,6 +430,10 @@ pub fn main(args: &[String]) {
         let line = line.unwrap();
         let t: Vec<&str> = line.trim().split(' ').collect();
         if t.is_empty() || t[0].is_empty() {
+            continue;
+        }
+        if mode == "fmtsweep" {
+            fmtsweep(&t, &mut out);
             continue;
         }
         let r = match mode {
